@@ -407,6 +407,9 @@ class ForallList:
             out = [z3.Implies(VL.is_nil(l), e)]
             if z3.is_app(l) and l.decl().name() == 'app':
                 out.append(e == z3.And(self.fn(l.arg(0), *ps), self.fn(l.arg(1), *ps)))
+            if z3.is_app(l) and l.decl().name() == 'assoc_set':
+                # replacing or appending one entry keeps the predicate when the new entry satisfies it (induction on the list)
+                out.append(z3.Implies(z3.And(self.fn(l.arg(0), *ps), self.pred(V.Pair(l.arg(1), l.arg(2)), *ps)), e))
             if z3.is_app(l) and l.decl().kind() == z3.Z3_OP_ITE:
                 out.append(e == z3.If(l.arg(0), self.fn(l.arg(1), *ps), self.fn(l.arg(2), *ps)))
             for imp in self.implied_by:
@@ -450,6 +453,7 @@ class ListImplication:
 def forall_elim_facts(exprs):
     alls = collect_apps(exprs, set(ForallList._made))
     nths = collect_apps(exprs, ('nth',))
+    lookups = collect_apps(exprs, ('lookup',))
     out = []
     for a in alls:
         fl = ForallList._made[a.decl().name()]
@@ -458,4 +462,7 @@ def forall_elim_facts(exprs):
         for t in nths:
             # the index of every nth term is tried on the list of the All_ fact (the solver relates the lists)
             out.append(fl.elem(l, t.arg(1), *ps))
+        for t in lookups:
+            # association lists: a found entry satisfies the predicate (as a (key, value) pair)
+            out.append(z3.Implies(z3.And(fl.fn(l, *ps), lookup(l, t.arg(1)) != V.Missing), fl.pred(V.Pair(t.arg(1), lookup(l, t.arg(1))), *ps)))
     return out
